@@ -508,7 +508,19 @@ def run(ctx):
         guarded(ctx, 'C06.L1', sj, e, lambda a: mentions_field(a, 'BuildConfig::disable_jobserver_client'), False,
                 'MAKEFLAGS is consulted only when the client is not disabled', construct='jobserver-client:created-although-disabled')
     check_midbuild_targets_scheduled(ctx, 'C06.L1', prog)
-    ctx.floor('C06.L1', 10)
+    # a completion that is already queued is handed out before the runner blocks again: DoWork() (ppoll without a
+    # timeout) is never reached on the side where SubprocessSet::HasFinished() said yes
+    wc_ = prog.fn('RealCommandRunner::WaitForCommandOrJobserverToken')
+    hf = [(b, i, s2) for b, blk in wc_.blocks.items() for i, s2 in enumerate(blk['succ']) if s2 is not None and
+          any((pol is True and mentions_call(atom, 'SubprocessSet::HasFinished')) or
+              (pol is False and mentions_field(atom, 'SubprocessSet::finished_') and 'empty' in k)
+              for k, pol, atom in wc_.edge_facts(b, i))]
+    okq = bool(hf)
+    for b, i, s2 in hf:
+        okq = okq and wc_.find_path(None, lambda x: x['k'] == 'call' and x.get('name') == 'SubprocessSet::DoWork', from_succ=s2) is None
+    ctx.check('C06.L1', okq, wc_.name, 'wait:blocks-with-queued-completion', wc_.loc,
+              'with a finished command already queued the runner does not call DoWork() (which may block forever)')
+    ctx.floor('C06.L1', 11)
 
     # ---- CF1: a slot cannot be copied or forged -------------------------------------------------
     R('C06.CF1', 'CF', 'Jobserver::Slot is move-only and cannot be constructed from an integer '
